@@ -12,5 +12,5 @@ Definition fsqrt (a : float) : float := PrimFloat.sqrt a.
 Extraction "m.ml" trim_collinear simplify_path rdp_path rdp_path_flags strip_duplicates strip_near_equal
   get_bounds translate_path translate_ub_free path_length ellipse_i ellipse_d ellipse_params ellipse_angle
   perp_d2 is_collinear sublistb path_eqb keeps_ends no_cyc_dup no_reversal no_cyc_collinear corners_or_empty
-  simplify_fixed_f rdp_bad_f has_repeat area2 Z2F fsqr fadd fsub fmul fdiv fsqrt pt_eqb near_equal std_unique
+  simplify_fixed_f rdp_bad_f  area2 Z2F fsqr fadd fsub fmul fdiv fsqrt pt_eqb near_equal std_unique
   no_lin_dup no_lin_reversal no_lin_collinear bbox_of collect cross.
